@@ -1573,10 +1573,11 @@ class C11(Check):
             'UNSUBSCRIBE STATUS SELECT/EXAMINE APPEND with names biased to '
             're-use (conflicts, inferiors, parents, case variants of INBOX, '
             'wildcard/quote/newline/control/non-ASCII names); after every '
-            'step full LIST/LSUB, a dump of every mailbox and 3 LIST/LSUB '
-            'probes with hostile reference/pattern pairs are compared with '
-            'the model; distinct = hash of the sequence of (command, name '
-            'class) pairs; non-trivial = at least one step was compared')
+            'step full LIST/LSUB, content dumps (STATUS + EXAMINE + UID '
+            'FETCH) and 3 LIST/LSUB probes with hostile reference/pattern '
+            'pairs are compared with the model; distinct = hash of the '
+            'sequence of (command, name class) pairs; non-trivial = at least '
+            'one step was compared')
     assumptions = [
         "hierarchy delimiter is '/' on every backend (checked on every LIST "
         'response)',
@@ -1588,8 +1589,13 @@ class C11(Check):
         'names that leave the store / degenerate hierarchies (empty parts, '
         "'.', '..') belong to C08: generated rarely, only NO-and-unchanged is "
         'checked, a trace is not continued after such a name was accepted',
-        'a trace on which the connection dies (BYE [SERVERBUG]) is aborted '
-        'and counted (owned by C06); single session per case',
+        'a namespace command under test that gets no tagged answer (BYE '
+        '[SERVERBUG], close) is a violation (command-kills-connection:*); a '
+        'death during an observation command (STATUS/EXAMINE/FETCH dump) '
+        'aborts the trace (C06 owns it); single session per case',
+        'content dumps cover every mailbox after each NO, RENAME and DELETE '
+        'and in 20 % of the cases after every step; after other OK steps the '
+        'target, every mailbox expected to have changed and 2 sampled others',
         'UID values are compared only for equality before/after RENAME '
         '(C04 owns their monotonicity); RENAME INBOX compares X-VF-ID sets',
     ]
